@@ -1008,7 +1008,9 @@ class SyncObj(object):
 
                 currentNodeIdx = nextNodeIdx - 1
                 if reset:
-                    self.__raftNextIndex[node] = nextNodeIdx
+                    # Several batches of one round may be rejected: the lowest hint wins, otherwise the
+                    # rejection of a later batch moves nextIndex forward again and the follower never catches up
+                    self.__raftNextIndex[node] = min(self.__raftNextIndex[node], nextNodeIdx)
                 if success:
                     if self.__raftMatchIndex[node] < currentNodeIdx:
                         self.__raftMatchIndex[node] = currentNodeIdx
